@@ -1,5 +1,5 @@
 (** C11 — Arithmetic evaluation follows C expression semantics on 64-bit signed integers. *)
-From GoSh Require Import Base.Bytes Base.Outcome Store.Env Store.EnvSpec Arith.ASyntax Arith.AEval Arith.AProofs.
+From GoSh Require Import Base.Bytes Base.Outcome Store.Env Store.EnvSpec Arith.ASyntax Arith.AEval Arith.AProofs Arith.ARefine.
 
 (** Full statement of the property on the model: on every C-defined expression on which eager
     evaluation of the operands of && || ?: is unobservable ([eager_safe], the complement of known
@@ -21,6 +21,15 @@ Theorem C11_partial_only_named_variables_change :
   forall a e, same_except (mods a) e (fst (eval_i e a)).
 Proof. exact eval_i_frame. Qed.
 Print Assumptions C11_partial_only_named_variables_change.
+
+(** Proved: on expressions without assignment, increment or decrement the refinement statement holds
+    in full -- the evaluator leaves the store alone and gives C's value (or both fail), although it
+    delays the reading of variables and evaluates the operands that C skips. *)
+Theorem C11_partial_refines_C_without_assignments :
+  forall a e, pure a = true -> eager_safe a = true -> numeric_store e a = true ->
+    fst (eval_top_i e a) = e /\ fst (eval_c e a) = e /\ same_answer (snd (eval_top_i e a)) (snd (eval_c e a)).
+Proof. exact pure_refines_C_top. Qed.
+Print Assumptions C11_partial_refines_C_without_assignments.
 
 Local Open Scope N_scope.
 (** Non-vacuity / sanity: 7 - 2 * 3, x = y = 4 with y read back, and a wrap-around. *)
